@@ -5,6 +5,7 @@
 import HugrVerif.Proofs.Serial
 import HugrVerif.Proofs.StoreNodes
 import HugrVerif.SerialCodecs
+import HugrVerif.Nested
 import HugrVerif.Proofs.C05ProjOps
 
 set_option linter.unusedSimpArgs false
@@ -275,3 +276,68 @@ theorem decDoc_defaults (ns es : Json) :
   simp [decDoc, fld]
 
 end HugrVerif.C05Doc
+
+/-! ### function constants: nested documents -/
+
+namespace HugrVerif.Nested
+open HugrVerif HugrVerif.Serial
+
+mutual
+  /-- re-saving leaves a value alone whose function bodies are all fixed points of the re-save -/
+  theorem mapBodies_fixed (g : Json → Except Serial.Err Json) :
+      ∀ (v : Value), AllBodies (fun b => g b = .ok b) v → mapBodies g v = .ok v
+    | .sum t ty vs, h => by
+      simp only [AllBodies] at h
+      simp [mapBodies, mapBodiesList_fixed g vs h, bind, Except.bind, pure, Except.pure]
+    | .tuple vs, h => by
+      simp only [AllBodies] at h
+      simp [mapBodies, mapBodiesList_fixed g vs h, bind, Except.bind, pure, Except.pure]
+    | .function i o r body, h => by
+      simp only [AllBodies] at h
+      simp [mapBodies, h, bind, Except.bind, pure, Except.pure]
+    | .ext n t p e, _ => rfl
+  theorem mapBodiesList_fixed (g : Json → Except Serial.Err Json) :
+      ∀ (vs : List Value), AllBodiesList (fun b => g b = .ok b) vs → mapBodiesList g vs = .ok vs
+    | [], _ => rfl
+    | v :: vs, h => by
+      simp only [AllBodiesList] at h
+      simp [mapBodiesList, mapBodies_fixed g v h.1, mapBodiesList_fixed g vs h.2, bind, Except.bind, pure, Except.pure]
+end
+
+theorem mapConst_fixed (g : Json → Except Serial.Err Json) (op : Op)
+    (h : ∀ v, op = .const v → AllBodies (fun b => g b = .ok b) v) : mapConst g op = .ok op := by
+  cases op <;> try rfl
+  case const v => simp [mapConst, mapBodies_fixed g v (h v rfl), bind, Except.bind, pure, Except.pure]
+
+/-- **What the nested-document codec decodes**: the operation the operation layer decodes, with the
+    body document of every function constant in it re-saved. -/
+theorem codecWith_dec (g : Json → Except Serial.Err Json) (fuel : Nat) (j : Json) (op : Op) (p : Int)
+    (h : (codecWith g fuel).dec j = .ok (op, p)) :
+    ∃ op0, Op.decOp fuel j = .ok (op0, p) ∧ mapConst g op0 = .ok op := by
+  simp only [codecWith, opsCodec] at h
+  cases hd : Op.decOp fuel j with
+  | error e => simp [hd] at h
+  | ok r =>
+    obtain ⟨op0, p0⟩ := r
+    simp only [hd] at h
+    cases hm : mapConst g op0 with
+    | error e => simp [hm] at h
+    | ok op' =>
+      simp only [hm, Except.ok.injEq, Prod.mk.injEq] at h
+      obtain ⟨rfl, rfl⟩ := h
+      exact ⟨op0, rfl, hm⟩
+
+/-- **Fixed-point bodies are carried verbatim**: on a node whose function constants all have body
+    documents that re-save to themselves, the nested-document codec is the operation layer's decoder
+    — the case the value model (`Val.lean`) describes. -/
+theorem codecWith_dec_fixed (g : Json → Except Serial.Err Json) (fuel : Nat) (j : Json) (op : Op) (p : Int)
+    (h0 : Op.decOp fuel j = .ok (op, p)) (hfix : ∀ v, op = .const v → AllBodies (fun b => g b = .ok b) v) :
+    (codecWith g fuel).dec j = .ok (op, p) := by
+  simp [codecWith, opsCodec, h0, mapConst_fixed g op hfix]
+
+/-- the other two components are those of the operation layer -/
+theorem codecWith_enc (g : Json → Except Serial.Err Json) (fuel : Nat) :
+    (codecWith g fuel).enc = (opsCodec fuel).enc ∧ (codecWith g fuel).orderOff = opOrderOff := ⟨rfl, rfl⟩
+
+end HugrVerif.Nested
+
